@@ -23,7 +23,8 @@ REGIONS = ["baseline", "approach", "all"]
 STRATEGIES = ["shift", "drift"]
 
 HEAD = """From Coq Require Import List Bool PrimFloat.
-From NV Require Import Base.Exn Model.FitCore Model.FitCoreF Model.Steps Model.StepsF.
+From NV Require Import Base.Exn Model.FitCore Model.FitCoreF Model.Steps Model.StepsF
+     Model.Median Model.MedianF.
 Import ListNotations.
 Definition bools_eqb (a b : list bool) : bool :=
   Nat.eqb (length a) (length b) && forallb (fun p => Bool.eqb (fst p) (snd p)) (combine a b).
@@ -149,7 +150,8 @@ class Observe:
             return r
 
         def mono(data, *a, **k):
-            rec = {"data": np.array(data, copy=True)}
+            rec = {"data": np.array(data, copy=True),
+                   "window0": int(k.get("window", a[0] if a else 15))}
             try:
                 out = me.o_mono(data, *a, **k)
                 rec["out"] = np.array(out, copy=True)
@@ -369,15 +371,20 @@ def check_step(run, name, step, opts, B, A, ob, k, exprs, descr):
                 d = np.diff(v)
                 if not (np.all(d > 0) or np.all(d < 0)):
                     fail(f"column {c!r} is not strictly monotonic in "
-                         f"segment {s}", "C07_smooth_strict_partial")
+                         f"segment {s}", "C07_smooth_strictly_monotone")
         parts = []
         for rec in ob.smooth:
-            if "out" in rec:
-                parts.append(f"ok_same (f_tiebreak 1000 {flist(rec['median'])}"
-                             f") {flist(rec['out'])}")
+            whole = rec["window"] <= 63 and rec["data"].size <= 400
+            if whole:
+                # both loops and the median filter, from the raw column
+                call = f"f_smooth 1000 {rec['window0']} {flist(rec['data'])}"
+                run.count("smooth-whole-function")
             else:
-                parts.append(f"is_err (f_tiebreak 1000 "
-                             f"{flist(rec['median'])}) ValueError")
+                call = f"f_tiebreak 1000 {flist(rec['median'])}"
+            if "out" in rec:
+                parts.append(f"ok_same ({call}) {flist(rec['out'])}")
+            else:
+                parts.append(f"is_err ({call}) ValueError")
             md = rec["median"]
             run.count("smooth-ties" if np.unique(md).size != md.size
                       else "smooth-no-ties")
@@ -427,17 +434,154 @@ def run_curve(run, name, cols, k, plist, exprs, descr):
             prev = snap
 
 
+def smoothing_inputs(rng, t):
+    """(kind, window, data): height-like ramps whose noise exceeds the
+    sampling step, periodic disturbances, quantised values, outliers,
+    plateaus, and (kind 5) two plateaus close to zero whose contrary step is
+    below the rounding of the sums of differences"""
+    n = int(rng.integers(20, 260))
+    sgn = rng.choice([1, -1])
+    base = np.linspace(0, 1, n) * sgn
+    kind = int(rng.integers(0, 7))
+    window = 15 if rng.random() < 0.6 else int(rng.choice(
+        [1, 2, 3, 4, 5, 7, 8, 9, 11, 21, 31, 33, 64]))
+    if kind == 0:
+        y = base + rng.normal(0, rng.choice([1e-3, 1e-2, 5e-2]), n)
+    elif kind == 1:
+        y = base + 0.3 / n * np.tile([0, 1.7], n // 2 + 1)[:n] \
+            * rng.uniform(0.5, 4)
+    elif kind == 2:
+        y = np.round(base * rng.integers(5, 60)) / 50.0
+    elif kind == 3:
+        y = base.copy()
+        k = int(rng.integers(1, 6))
+        y[rng.integers(0, n, k)] += rng.normal(0, 0.3, k)
+    elif kind == 4:
+        y = base + np.sin(np.arange(n) * rng.uniform(0.5, 3.1)) \
+            * rng.uniform(0.001, 0.05)
+    elif kind == 5:
+        # ramp through zero in metres; two plateaus near zero, the second
+        # lower (higher) than the first by a few hundred ulps
+        n = max(n, 60)
+        b = int(rng.integers(8, 25))
+        k = int(rng.integers(b + 2, n - b - 2))
+        v = 10.0 ** rng.uniform(-15, -11)
+        step = np.spacing(v) * int(rng.integers(50, 20000))
+        y = np.empty(n)
+        y[:k - b] = np.linspace(-5e-6, -1e-9, k - b)
+        y[k - b:k] = v + step
+        y[k:k + b] = v
+        y[k + b:] = np.linspace(2e-9, 5e-6, n - k - b)
+        y = y * sgn
+    else:
+        # strictly monotone data: fixed point (C07_smooth_fixed_point)
+        y = np.cumsum(rng.uniform(1e-3, 1, n)) * sgn
+    return kind, window, y
+
+
+def smoothing_cases(run, exprs, descr):
+    """smooth_axis_monotone called directly: the result must be strictly
+    monotonic; the filter output the window-doubling loop ends with must be
+    weakly monotonic (C07_smooth_whole) and equal scipy's median filter for
+    that window; strictly monotone input must come back unchanged
+    (C07_smooth_fixed_point); the whole function (median filter, both loops)
+    is recomputed bit for bit by the Coq model from the raw input"""
+    import nanite.smooth as sm
+    import scipy.ndimage as im
+    n_cases = 70 if run.tier == "quick" else 1500
+    rng = np.random.default_rng(run.seed % (2 ** 32))
+    for t in range(n_cases):
+        kind, window, y = smoothing_inputs(rng, t)
+        n = y.size
+        key = f"smooth:{run.seed}:{t}"
+        cfg = {"smoothing-case": t, "kind": kind, "n": n, "window": window}
+        run.case(cfg, kind=f"smooth-direct:{kind}")
+        payload = {"kind": "smooth", "data": [float(v).hex() for v in y],
+                   "window": window}
+        last = {}
+        o_axis = sm.smooth_axis
+
+        def axis(data, window=15):
+            r = o_axis(data, window=window)
+            last["m"] = np.array(r, copy=True)
+            last["w"] = int(window)
+            return r
+        sm.smooth_axis = axis
+        try:
+            with warnings.catch_warnings():
+                warnings.simplefilter("ignore")
+                out = sm.smooth_axis_monotone(y.copy(), window=window)
+            err = None
+        except ValueError as e:
+            out, err = None, e
+        finally:
+            sm.smooth_axis = o_axis
+        affordable = last["w"] <= 63 or (last["w"] <= 255 and n <= 60)
+        if affordable and (t % 2 == 0 or kind >= 5):
+            call = f"f_smooth 1000 {window} {flist(y)}"
+            exprs.append(f"ok_same ({call}) {flist(out)}" if err is None
+                         else f"is_err ({call}) ValueError")
+            descr.append(f"whole smoothing function, case {t} {cfg}")
+            run.count("smooth-whole-function")
+        if err is not None:
+            run.count("smooth-direct:ValueError")
+            continue
+        want = im.median_filter(y, size=(last["w"],), mode="nearest")
+        if bits(want) != bits(last["m"]):
+            run.failing(SITE + ".smooth_height", key + "|filter",
+                        f"{cfg}: the array handed to the tie-breaking loop is "
+                        f"not the median filter of window {last['w']}",
+                        payload=payload, theorem="C07_smooth_whole")
+        d = np.diff(out)
+        if not (np.all(d > 0) or np.all(d < 0)):
+            j = int(np.nonzero(d < 0)[0][0] if (d > 0).sum() > (d < 0).sum()
+                    else np.nonzero(d > 0)[0][0])
+            run.failing(SITE + ".smooth_height", key,
+                        f"{cfg}: smooth_axis_monotone returns data that are "
+                        f"not strictly monotonic (step {j}: {out[j]!r} -> "
+                        f"{out[j + 1]!r})", payload=payload,
+                        theorem="C07_smooth_strictly_monotone")
+        dm = np.diff(last["m"])
+        if not (np.all(dm >= 0) or np.all(dm <= 0)):
+            run.failing(SITE + ".smooth_height", key + "|median",
+                        f"{cfg}: the window-doubling loop ended with a filter "
+                        "output that is not weakly monotonic",
+                        payload=payload, theorem="C07_smooth_whole")
+        if kind == 6 and (window % 2 == 1 or y[0] < y[-1]) \
+                and bits(out) != bits(y):
+            run.failing(SITE + ".smooth_height", key + "|fixed-point",
+                        f"{cfg}: strictly monotone data are not returned "
+                        "unchanged", payload=payload,
+                        theorem="C07_smooth_fixed_point")
+    # the median filter alone against scipy, odd / even / over-long windows
+    for t in range(12 if run.tier == "quick" else 120):
+        n = int(rng.integers(1, 40))
+        w = int(rng.integers(1, 2 * n + 6))
+        y = rng.normal(0, 1, n)
+        if t % 3 == 0:
+            y = np.round(y * 3) / 3 + 0.0      # ties
+        want = im.median_filter(y, size=(w,), mode="nearest")
+        exprs.append(f"floats_same (f_median_filter {w} {flist(y)}) "
+                     f"{flist(want)}")
+        descr.append(f"median filter n={n} window={w}")
+        run.count("median-filter-direct")
+
+
 def check(run):
     run.sources = common.source_digests(["src/nanite/preproc.py",
                                          "src/nanite/smooth.py",
                                          "src/nanite/poc.py"])
     gen_all.generate_all()
-    common.prove(run, "C07", extra_targets=["Model/StepsF.vo"])
+    common.prove(run, "C07", extra_targets=["Model/StepsF.vo",
+                                            "Model/MedianF.vo"])
     run.trusted = [
         "Coq 8.16.1 kernel + vm_compute with primitive floats; Reals axioms",
         "coq/Model/Steps.v (one definition, R and binary64 instances) tied by "
         "bit-exact comparison of every step's output column on synthetic and "
         "recorded curves",
+        "coq/Model/Median.v (median filter, both loops of smooth_axis_monotone)"
+        " tied by bit-exact comparison of the whole function from the raw "
+        "column",
         "harness observation of lmfit.models.LinearModel.fit, "
         "nanite.smooth.smooth_axis and the np.average/np.std values inside "
         "find_turning_point (recomputed with the same numpy calls)",
@@ -446,9 +590,11 @@ def check(run):
         "lmfit's LinearModel returns the least-squares line (checked against "
         "numpy.polyfit to 1e-5 on every case; hypothesis of "
         "C07_slope_removes_trend)",
-        "the window-doubling loop over scipy.ndimage.median_filter ends with "
-        "a weakly monotone array (hypothesis of C07_smooth_strict_partial; "
-        "strict monotonicity of the real output is asserted on every case)",
+        "scipy.ndimage.median_filter(mode='nearest') = rank w//2 of the "
+        "window i-w//2 .. i-w//2+w-1 clamped to the array (Model/Median.v; "
+        "compared bit for bit on every case, odd/even/over-long windows); the "
+        "smoothing loops terminate within max_iter (not proved; exhaustion is "
+        "ValueError in model and code)",
         "contact-point indices come from nanite.poc (property C08)",
     ]
     cat = catalogue(run.tier)
@@ -460,6 +606,7 @@ def check(run):
             i = cat.index((name, cols, k))
             plist = [plist[(2 * i) % 6], plist[(2 * i + 1) % 6]]
         run_curve(run, name, cols, k, plist, exprs, descr)
+    smoothing_cases(run, exprs, descr)
     fits.eval_bool_cases(run, "c07_steps", exprs, descr, head=HEAD, chunk=8)
     run.extra["curves"] = [c[0] for c in cat]
     run.rule = ("each curve of the catalogue (synthetic from every shipped "
@@ -473,6 +620,19 @@ def check(run):
 
 def replay(rec):
     pl = rec.get("payload") or {}
+    if pl.get("kind") == "smooth":
+        from nanite.smooth import smooth_axis_monotone
+        with warnings.catch_warnings():
+            warnings.simplefilter("ignore")
+            try:
+                data = np.array([float.fromhex(v) if isinstance(v, str)
+                                 else float(v) for v in pl["data"]])
+                out = smooth_axis_monotone(data,
+                                           window=int(pl.get("window", 15)))
+            except ValueError:
+                return True
+        d = np.diff(out)
+        return bool(np.all(d > 0) or np.all(d < 0))
     cfg = pl.get("cfg") or {}
     name = cfg.get("curve") or pl.get("curve")
     if not name:
